@@ -5,7 +5,7 @@
    any two steps (within MaxCrash). *)
 EXTENDS QtlRotation
 
-CONSTANTS Ls, Ns, Opts, Sizes, MaxSends, MaxDay, MaxRestarts, MaxCrash, MaxFault, MaxGzWrites, Ticks
+CONSTANTS Ls, Ns, Opts, Sizes, MaxSends, MaxDay, MaxRestarts, MaxCrash, MaxFault, MaxGzWrites, Ticks, Fatal, FlushOnFatal
 
 VARIABLE mc      \* bounds bookkeeping: [sends, faults, crashes, gzw]
 mcvars == <<vars, mc>>
@@ -20,14 +20,24 @@ MCInit ==
           InitWith([L |-> L, N |-> N, startup |-> o.startup, daily |-> o.daily, gz |-> o.gz],
                    [n \in {FOREIGN1} |-> File("foreign", <<>>, <<0, 0>>, 7)],
                    <<>>, <<>>, <<>>, <<0, 0>>)
-    /\ mc = [sends |-> 0, faults |-> 0, crashes |-> 0, gzw |-> 0]
+    /\ mc = [sends |-> 0, faults |-> 0, crashes |-> 0, gzw |-> 0, stage |-> 0]
 
 MCCanStop == (cfg.daily /\ cfg.N # 1) => CanStop
 
-MCConstruct == g.restarts <= MaxRestarts /\ BeginConstruct /\ UNCHANGED mc
-MCSend == mc.sends < MaxSends /\ (\E len \in Sizes : BeginSend(len)) /\ mc' = [mc EXCEPT !.sends = @ + 1]
-MCFlush == sk.buf # <<>> /\ BeginFlush /\ UNCHANGED mc
-MCDestroy == MCCanStop /\ BeginDestroy /\ UNCHANGED mc
+\* the fatal path of Logger::processMessage: the pipeline runs for the fatal message, then (FlushOnFatal)
+\* the sinks are flushed, then Qt aborts
+Calm == mc.stage \in {0, 3}
+MCFatal ==
+    \/ /\ Fatal /\ mc.stage = 0 /\ (\E len \in Sizes : BeginSend(len)) /\ mc' = [mc EXCEPT !.stage = 1]
+    \/ /\ mc.stage = 1 /\ Idle
+       /\ IF FlushOnFatal THEN BeginFlush /\ mc' = [mc EXCEPT !.stage = 2]
+                           ELSE Abort /\ mc' = [mc EXCEPT !.stage = 3]
+    \/ /\ mc.stage = 2 /\ Idle /\ Abort /\ mc' = [mc EXCEPT !.stage = 3]
+
+MCConstruct == Calm /\ g.restarts <= MaxRestarts /\ BeginConstruct /\ UNCHANGED mc
+MCSend == Calm /\ mc.sends < MaxSends /\ (\E len \in Sizes : BeginSend(len)) /\ mc' = [mc EXCEPT !.sends = @ + 1]
+MCFlush == Calm /\ sk.buf # <<>> /\ BeginFlush /\ UNCHANGED mc
+MCDestroy == Calm /\ MCCanStop /\ BeginDestroy /\ UNCHANGED mc
 MCInt == StepInt /\ UNCHANGED mc
 MCSys ==
     \E lab \in (IF sk.alive /\ ~AtRest(Here) /\ NeedsSys(Here) THEN SysLabels(Here) ELSE {}), ok \in BOOLEAN :
@@ -38,7 +48,7 @@ MCSys ==
                /\ (wcost = 1) => mc.gzw < MaxGzWrites
                /\ mc' = [mc EXCEPT !.faults = @ + fcost,
                                    !.gzw = IF sk.pc = "gzBody" THEN @ + wcost ELSE 0]
-MCCrash == mc.crashes < MaxCrash /\ Crash /\ mc' = [mc EXCEPT !.crashes = @ + 1]
+MCCrash == Calm /\ mc.crashes < MaxCrash /\ Crash /\ mc' = [mc EXCEPT !.crashes = @ + 1]
 
 Quiet == ~sk.alive \/ sk.pc = "idle"
 \* a further tick is only distinguishable if something carries the current one
@@ -48,6 +58,6 @@ MCTick == /\ Ticks /\ Quiet
 MCNextDay == /\ Quiet /\ now[1] < MaxDay
              /\ SetNow(<<now[1] + 1, 0>>) /\ UNCHANGED mc
 
-MCNext == MCConstruct \/ MCSend \/ MCFlush \/ MCDestroy \/ MCInt \/ MCSys \/ MCCrash \/ MCTick \/ MCNextDay
+MCNext == MCFatal \/ MCConstruct \/ MCSend \/ MCFlush \/ MCDestroy \/ MCInt \/ MCSys \/ MCCrash \/ MCTick \/ MCNextDay
 MCSpec == MCInit /\ [][MCNext]_mcvars
 =============================================================================
